@@ -15,7 +15,7 @@ def pairsStr (l : List (Nat × Nat)) : String :=
   if l.isEmpty then "-" else ",".intercalate (l.map fun (a, b) => s!"{a}:{b}")
 
 def handle : List String → String
-  | [v, K, pan, ext, chan, mask, upd, nk, seq, fc, tclk, hashed, tcKnown, gen, keys, children] =>
+  | [v, K, priorFc, priorKeys, pan, ext, chan, mask, upd, nk, seq, fc, tclk, hashed, tcKnown, gen, keys, children] =>
     let r : Option String := do
       let s : Settings := {
         params := ⟨← pan.toNat?, ← ext.toNat?, ← chan.toNat?, ← mask.toNat?, ← upd.toNat?⟩,
@@ -24,7 +24,13 @@ def handle : List String → String
         tcPartnerKnown := tcKnown == "1",
         linkKeys := (← pairs keys).map fun (k, p) => (keyOf k, p),
         children := ← pairs children }
-      let n := write (← v.toNat?) s (keyOf (← gen.toNat?)) (factoryFresh (← K.toNat?))
+      let k ← K.toNat?
+      let pk ← priorKeys.toNat?
+      -- the NCP as an earlier write left it: a frame counter, some key table entries, a child
+      let n0 : Ncp := { K := k, nwkFc := ← priorFc.toNat?, params := some ⟨1, 2, 3, 4, 5⟩,
+                        keys := (List.range k).map fun i => if i < pk then some (1000 + i, keyOf i) else none,
+                        children := if pk > 0 then [(0, 77, 78)] else [] }
+      let n := write (← v.toNat?) s (keyOf (← gen.toNat?)) (reset (← v.toNat?) n0)
       let sec ← n.sec
       let l ← load (← v.toNat?) n
       pure (" ".intercalate [toString l.params.panId, toString l.params.extPanId, toString l.params.channel,
